@@ -104,3 +104,43 @@ def k1_query(cont, n, ksteps, prop, ts='no', timeout=600, extra=None, tag=''):
                  meta={'kind': 'k1', 'cont': cont, 'n': n, 'k': ksteps, 'prop': prop, 'ts': ts,
                        'mem_gb': K1_MEM.get(cont, 2) * max(1, ksteps - 2),
                        'weight': WEIGHT.get(cont, 2) * (8 ** (n - 1)) * ksteps * 4})
+
+
+# ---- K3: lock coverage of every public method of the thread_safe::yes instantiation
+K3_METHODS = {'size': 10, 'empty': 11, 'capacity': 12, 'insert_range': 20, 'erase_range': 21, 'find_range': 22, 'find_range_fill': 23}
+
+
+def k3_methods(cont):
+    ms = [(op, OP[op]) for op in ops_of(cont)]
+    ms += [('size', 10), ('empty', 11)]
+    if cont not in ('utmap', 'utset'):
+        ms.append(('capacity', 12))
+    ms += [('insert_range', 20), ('erase_range', 21), ('find_range', 22), ('find_range_fill', 23)]
+    return ms
+
+
+def k3_query(cont, method, mid, n, prop, rlen=2, timeout=300):
+    defs = {'CONT_HDR': '"c_%s.hpp"' % cont, 'METHOD': mid, 'HCAP': n, 'PROP': prop, 'TS': 'yes', 'RLEN': rlen, 'RMAX': max(rlen, 1),
+            'VSTD_TAB_MAX': n + 1, 'VSTD_LIST_MAX': n + 1}
+    name = 'k3_%s_%s_n%d_r%d_p%d' % (cont, method, n, rlen, prop)
+    return Query(name, 'k3_lock.cpp', defs, hooks=('lock_hooks.c',), unwind=max(n + 5, 10), timeout=timeout,
+                 ir2c_flags=['--instrument-access'],
+                 meta={'kind': 'k3', 'cont': cont, 'method': method, 'n': n, 'prop': prop, 'ts': 'yes', 'rlen': rlen,
+                       'mem_gb': 2 if n <= 2 else 5, 'weight': WEIGHT.get(cont, 2) * (8 ** (n - 1)) * (3 if mid >= 20 else 1)})
+
+
+# ---- K5: relational two-copy queries
+RMETHODS = {'insert_range': 20, 'erase_range': 21, 'find_range': 22, 'find_range_fill': 23}
+
+
+def k5_query(cont, mode, n, prop, rmethod=None, rlen=2, ts='no', timeout=600):
+    defs = {'CONT_HDR': '"c_%s.hpp"' % cont, 'MODE': mode, 'HCAP': n, 'PROP': prop, 'TS': ts, 'RLEN': rlen, 'RMAX': max(rlen, 1),
+            'RMETHOD': RMETHODS.get(rmethod, 0), 'VSTD_TAB_MAX': n + 1, 'VSTD_LIST_MAX': n + 1}
+    cb = [] if prop == 0 else ['VF_CHECK_ASSUME']
+    name = 'k5_%s_m%d_%s_n%d_r%d_p%d_%s' % (cont, mode, rmethod or 'x', n, rlen, prop, ts)
+    heavy = cont in ('lfuda', 'utmap', 'utset', 'tlru', 'utlru', 'lfu')
+    return Query(name, 'k5_rel.cpp', defs, hooks=('k5_hooks.c',), unwind=n + 5, cbmc_defines=cb, timeout=timeout,
+                 cbmc_flags=(['--trace'] if prop != 99 else []),
+                 meta={'kind': 'k5', 'cont': cont, 'mode': mode, 'rmethod': rmethod, 'n': n, 'prop': prop, 'ts': ts, 'rlen': rlen,
+                       'mem_gb': (6 if heavy else 2) * (1 if n <= 2 else 3),
+                       'weight': WEIGHT.get(cont, 2) * (8 ** (n - 1)) * (6 if rmethod == 'insert_range' else 2)})
